@@ -160,6 +160,15 @@ func HandleIdle(deps ServerDeps, conn net.Conn, tag string, state *models.Client
 			deps.SendResponse(conn, fmt.Sprintf("%s OK IDLE terminated", tag))
 			return
 		}
+
+		// The poll deadline running out just means the client has sent nothing yet.
+		// Any other error (EOF, reset, closed connection) means the client is gone:
+		// stop polling and let the command loop see the same error and end the session
+		if err != nil {
+			if netErr, ok := err.(net.Error); !ok || !netErr.Timeout() {
+				return
+			}
+		}
 	}
 }
 
